@@ -27,12 +27,21 @@ from . import common
 from .pytr import TranslatorError, find_function, segment
 
 PURES = "rzilcompiler/Transformer/Pures"
-CLASSES = [  # (file, class, operator field or None, enum class or None)
-    ("Cast.py", "Cast", None, None),
-    ("BitOp.py", "BitOp", "op_type", "BitOperationType"),
-    ("CompareOp.py", "CompareOp", "op_type", "CompareOpType"),
-    ("ArithmeticOp.py", "ArithmeticOp", "arith_type", "ArithmeticType"),
-    ("BooleanOp.py", "BooleanOp", "op_type", "BooleanOpType"),
+EFFECTS = "rzilcompiler/Transformer/Effects"
+CLASSES = [  # (directory, file, class, method, operator field or None, enum class or None, operand attributes -> hole index)
+    (PURES, "Cast.py", "Cast", "il_exec", None, None, {}),
+    (PURES, "BitOp.py", "BitOp", "il_exec", "op_type", "BitOperationType", {}),
+    (PURES, "CompareOp.py", "CompareOp", "il_exec", "op_type", "CompareOpType", {}),
+    (PURES, "ArithmeticOp.py", "ArithmeticOp", "il_exec", "arith_type", "ArithmeticType", {}),
+    (PURES, "BooleanOp.py", "BooleanOp", "il_exec", "op_type", "BooleanOpType", {}),
+    (PURES, "Ternary.py", "Ternary", "il_exec", None, None, {}),
+    (PURES, "MemLoad.py", "MemLoad", "il_exec", None, None, {"va": 0}),
+    (EFFECTS, "Branch.py", "Branch", "il_write", None, None, {"cond": 0, "then": 1, "otherwise": 2}),
+    (EFFECTS, "ForLoop.py", "ForLoop", "il_write", None, None, {"control": 0, "compound": 1}),
+    (EFFECTS, "Jump.py", "Jump", "il_write", None, None, {"target": 0}),
+    (EFFECTS, "MemStore.py", "MemStore", "il_write", None, None, {"va": 0, "data_var": 1}),
+    (EFFECTS, "NOP.py", "NOP", "il_write", None, None, {}),
+    (EFFECTS, "Empty.py", "Empty", "il_write", None, None, {}),
 ]
 
 
@@ -51,16 +60,24 @@ def coq_str(s: str) -> str:
 
 
 class ClsTr:
-    def __init__(self, file, cls, opfield, enum_cls, tree, src):
-        self.file, self.cls, self.opfield, self.enum_cls = f"{PURES}/{file}", cls, opfield, enum_cls
+    def __init__(self, directory, file, cls, method, opfield, enum_cls, attrs, tree, src):
+        self.file, self.cls, self.opfield, self.enum_cls = f"{directory}/{file}", cls, opfield, enum_cls
+        self.method, self.attrs = method, attrs
         self.tree, self.src = tree, src
         self.enum = self.read_enum() if enum_cls else {}
-        fns = find_function(tree, "il_exec", cls)
+        fns = find_function(tree, method, cls)
         if len(fns) != 1:
-            raise TranslatorError(f"expected exactly one {cls}.il_exec", None, self.file)
+            raise TranslatorError(f"expected exactly one {cls}.{method}", None, self.file)
         self.fn = fns[0]
         if [a.arg for a in self.fn.args.args] != ["self"]:
-            raise TranslatorError("il_exec takes parameters", self.fn, self.file)
+            raise TranslatorError(f"{method} takes parameters", self.fn, self.file)
+        # the operand attributes must be bound to the constructor's parameters as they are (self.cond = cond ...)
+        if attrs:
+            init = find_function(tree, "__init__", cls)
+            txt = ast.unparse(init[0]) if init else ""
+            for a in attrs:
+                if not re.search(rf"self\.{a}(: \w+)? = \w+\n", txt + "\n"):
+                    raise TranslatorError(f"{cls}.__init__ no longer stores the operand `{a}` directly", init[0] if init else None, self.file)
 
     def err(self, msg, node=None):
         raise TranslatorError(msg, node, self.file)
@@ -86,14 +103,21 @@ class ClsTr:
 
     # ---------------------------------------------------------------- shapes of `self....`
     def op_index(self, e):
-        """self.ops[i] -> i"""
+        """self.ops[i] -> i ; self.<operand attribute> -> its hole index"""
         if isinstance(e, ast.Subscript) and ast.unparse(e.value) == "self.ops" and isinstance(e.slice, ast.Constant) \
-                and e.slice.value in (0, 1):
+                and e.slice.value in (0, 1, 2):
             return e.slice.value
+        if isinstance(e, ast.Attribute) and ast.unparse(e.value) == "self" and e.attr in self.attrs:
+            return self.attrs[e.attr]
         return None
 
     def vtype_of(self, e):
         """self.value_type -> tself ; self.ops[i].value_type -> t<i>"""
+        if ast.unparse(e) == "self.acc_type.val_type":      # MemLoad: the type of the access, which is the value type of the load
+            init = find_function(self.tree, "__init__", self.cls)
+            if not init or "PureExec.__init__(self, name, [va], acc_type.val_type)" not in ast.unparse(init[0]):
+                self.err("MemLoad.__init__ no longer passes acc_type.val_type as its value type", e)
+            return "tself"
         if isinstance(e, ast.Attribute) and e.attr == "value_type":
             if ast.unparse(e.value) == "self":
                 return "tself"
@@ -157,7 +181,7 @@ class ClsTr:
                 return k(S([("h", f"SInt (Z.of_N (vt_w {t}))")]))
             self.err("attribute", e)
         if isinstance(e, ast.Call):
-            if isinstance(e.func, ast.Attribute) and e.func.attr == "il_read" and not e.args and not e.keywords:
+            if isinstance(e.func, ast.Attribute) and e.func.attr in ("il_read", "effect_var") and not e.args and not e.keywords:
                 i = self.op_index(e.func.value)
                 if i is not None:
                     return k(S([("h", f'SVar "${i}"')]))
@@ -212,7 +236,7 @@ class ClsTr:
         # re-tokenise the concatenation so that "F"+"LT(" is one identifier
         toks, holes = [], [p[1] for p in pieces if isinstance(p, tuple)]
         hi, pos = 0, 0
-        for m in re.finditer(r"\s+|([A-Za-z_][A-Za-z_0-9]*)|([(),])|(\x00)", text_only):
+        for m in re.finditer(r'\s+|([A-Za-z_][A-Za-z_0-9]*)|([(),])|(\x00)|"([A-Za-z_0-9]*)"', text_only):
             if m.start() != pos:
                 self.err(f"unexpected character in emitted text {text_only!r}", node)
             pos = m.end()
@@ -223,6 +247,8 @@ class ClsTr:
             elif m.group(3):
                 toks.append(("hole", holes[hi]))
                 hi += 1
+            elif m.group(4) is not None:
+                toks.append(("hole", f"SStr {coq_str(m.group(4))}"))
         if pos != len(text_only):
             self.err(f"unexpected character in emitted text {text_only!r}", node)
         i = 0
@@ -273,6 +299,7 @@ class ClsTr:
     def translate(self) -> tuple[str, dict]:
         tree = self.block(self.fn.body, {}, lambda env: ("fall",))
         name = self.cls.lower() + "_text"
+        meth = self.method
         txt = (f"(* {self.file} lines {self.fn.lineno}-{self.fn.end_lineno}, sha256 {common.sha(segment(self.src, self.fn))} *)\n"
                f"Definition {name} (op : string) (tself t0 t1 : vtype) (ib0 ic0 ib1 ic1 : bool) : option sexp :=\n{self.coq_of(tree)}.\n")
         if self.enum:
@@ -333,10 +360,10 @@ def generate() -> tuple[str, dict]:
            "Local Open Scope bool_scope.",
            ""]
     meta = {"source": PURES, "classes": {}}
-    for file, cls, opfield, enum_cls in CLASSES:
-        path = common.REPO / PURES / file
+    for directory, file, cls, method, opfield, enum_cls, attrs in CLASSES:
+        path = common.REPO / directory / file
         src = path.read_text()
-        tr = ClsTr(file, cls, opfield, enum_cls, ast.parse(src), src)
+        tr = ClsTr(directory, file, cls, method, opfield, enum_cls, attrs, ast.parse(src), src)
         txt, m = tr.translate()
         out.append(txt)
         meta["classes"][cls] = m
